@@ -4,6 +4,7 @@
 package cfs
 
 import (
+	"sync/atomic"
 	"bufio"
 	"context"
 	"encoding/json"
@@ -74,7 +75,11 @@ func Snapshot(dir string) (*vfs.Node, error) {
 		return nil, err
 	}
 	if fi.Mode()&os.ModeSymlink != 0 {
-		return nil, fmt.Errorf("unexpected symlink %s", dir)
+		// a symbolic link to a regular file is a file resource holding what the link refers to (the symlink
+		// families place the targets outside the served directory); other links are not part of any generated tree
+		if fi, err = os.Stat(dir); err != nil || !fi.Mode().IsRegular() {
+			return nil, fmt.Errorf("unexpected symlink %s", dir)
+		}
 	}
 	if !fi.IsDir() {
 		b, err := os.ReadFile(dir)
@@ -99,6 +104,22 @@ func Snapshot(dir string) (*vfs.Node, error) {
 	}
 	return n, nil
 }
+
+// Linkify turns the regular file at root/rel into a symbolic link (absolute target) to a file of the same content
+// and modification time kept in outside, a directory that is not served.
+func Linkify(root, rel, outside string) error {
+	if err := os.MkdirAll(outside, 0o755); err != nil {
+		return err
+	}
+	src := filepath.Join(root, filepath.FromSlash(rel))
+	dst := filepath.Join(outside, fmt.Sprintf("target-%d", linkCounter.Add(1)))
+	if err := os.Rename(src, dst); err != nil {
+		return err
+	}
+	return os.Symlink(dst, src)
+}
+
+var linkCounter atomic.Int64
 
 // Sync makes the disk under dir equal to want, given that it currently holds have.
 func Sync(dir string, have, want *vfs.Node) error {
